@@ -79,7 +79,8 @@ def compositions(n, k):
 
 
 # quantile alphabets for continuous laws (C13, C19): a finite set of representative values.
-QUANTILES = (0.02, 0.15, 0.35, 0.5, 0.65, 0.85, 0.98)
+# the two tail quantiles reach the values a long run meets now and then (underflow to 0.0, huge values)
+QUANTILES = (0.5, 0.02, 0.15, 0.35, 0.65, 0.85, 0.98, 1e-9, 1.0 - 1e-9)
 
 
 class Schedule(object):
@@ -370,3 +371,43 @@ def explore_all(run, **kw):
         tot += p
         n += 1
     return out, n, tot
+
+
+# ------------------------------------------------------------------------------------------
+# no randomness may escape the generator that was passed in
+# ------------------------------------------------------------------------------------------
+class _ForbiddenGlobalState(object):
+    def __getattr__(self, name):
+        raise UnmodelledRandomness("numpy's global random state was used (%s): randomness that bypasses the passed generator" % name)
+
+
+def forbid_global_randomness():
+    """Make every use of numpy's / Python's global random state raise: all randomness of the code
+    under test has to come from the generator the harness passes in (seeded constructors stay usable)."""
+    import random as pyrandom
+
+    if getattr(np.random, "_verif_forbidden", False):
+        return
+    np.random._verif_forbidden = True
+    np.random.mtrand._rand = _ForbiddenGlobalState()  # what scipy's random_state=None resolves to
+
+    def refuser(name):
+        def f(*a, **k):
+            raise UnmodelledRandomness("np.random.%s: randomness that bypasses the passed generator" % name)
+
+        return f
+
+    for name in ("random", "rand", "randn", "randint", "random_sample", "ranf", "sample", "choice", "shuffle", "permutation", "beta", "gamma",
+                 "standard_gamma", "binomial", "multinomial", "uniform", "normal", "standard_normal", "exponential", "poisson", "dirichlet", "seed", "bytes"):
+        if hasattr(np.random, name):
+            setattr(np.random, name, refuser(name))
+    real_default_rng = np.random.default_rng
+
+    def default_rng(seed=None):
+        if seed is None:
+            raise UnmodelledRandomness("np.random.default_rng() without a seed: entropy-seeded generator inside the code under test")
+        return real_default_rng(seed)
+
+    np.random.default_rng = default_rng
+    for name in ("random", "randint", "randrange", "choice", "choices", "shuffle", "sample", "uniform", "gauss", "betavariate", "gammavariate", "seed", "getrandbits"):
+        setattr(pyrandom, name, refuser("(python) random." + name))
